@@ -58,6 +58,32 @@ func M[T any](p *T, site string) *T {
 	return p
 }
 
+// RMap marks a read through a map-typed field: of the field slot, and of the
+// map object it holds (a map value is a pointer to its header; two structs
+// holding the same map share that location).
+func RMap[T any](p *T, site string) *T {
+	if Hook != nil {
+		escape = unsafe.Pointer(p)
+		Hook(uintptr(unsafe.Pointer(p)), AccRead, site)
+		if mp := *(*unsafe.Pointer)(unsafe.Pointer(p)); mp != nil {
+			Hook(uintptr(mp), AccRead, site+"[map]")
+		}
+	}
+	return p
+}
+
+// WMap marks an element write / delete through a map-typed field.
+func WMap[T any](p *T, site string) *T {
+	if Hook != nil {
+		escape = unsafe.Pointer(p)
+		Hook(uintptr(unsafe.Pointer(p)), AccWrite, site)
+		if mp := *(*unsafe.Pointer)(unsafe.Pointer(p)); mp != nil {
+			Hook(uintptr(mp), AccWrite, site+"[map]")
+		}
+	}
+	return p
+}
+
 // Perm, when set, returns the permutation (of 0..n-1) in which a map of n keys
 // is iterated at site. nil = ascending key order.
 var Perm func(n int, site string) []int
